@@ -8,7 +8,7 @@ namespace Mesa.Layers
 
 /-- the states reachable by any history of ops on any grid of either implementation -/
 inductive Reach : State → Prop where
-  | init (impl : Impl) (dims : List Nat) (cap : Nat) : Reach (init impl dims cap)
+  | init (impl : Impl) (dims : List Nat) (cap : Option Nat) : Reach (init impl dims cap)
   | step {s : State} (op : Op) : Reach s → Reach (step s op).1
 
 theorem Reach.wf {s : State} (h : Reach s) : WF s := by
@@ -68,8 +68,16 @@ theorem cellGet_eq_value {s : State} (hw : WF s) {n : String} {l : Nat} (hn : s.
   split
   · next hi =>
     have := hw.att_free hi n l hn
-    simp [hc, this, hn, State.value]
+    have hdn : s.descr.lookup n = some l := (hw.descr_eq hi n).trans hn
+    simp [hc, this, hdn, State.value]
   · simp [hn, hd, hc, State.value]
+
+/-- the layer a cell attribute goes to is the one attached under that name (new: descriptor = dict entry) -/
+theorem cellLayer?_eq {s : State} (hw : WF s) (n : String) : s.cellLayer? n = s.named? n := by
+  unfold State.cellLayer? State.named?
+  split
+  · next hi => exact hw.descr_eq hi n
+  · rfl
 
 /-! ### successful writes, normalised -/
 
@@ -94,14 +102,15 @@ theorem cellSet_ok_attached {s s' : State} (hw : WF s) {n : String} {l : Nat} {c
   have hd := hw.att_dims n l hn
   unfold cellSet at h
   split at h
-  · split at h
+  · next hi =>
+    split at h
     · simp at h
     · next hb =>
       split at h
       · simp at h
       · simp only [Prod.mk.injEq, and_true] at h
         unfold cellAttrWrite at h
-        rw [hn] at h
+        rw [(hw.descr_eq hi n).trans hn] at h
         exact ⟨by simpa using hb, h.symm⟩
   · rw [hn] at h
     simp only at h
